@@ -1538,3 +1538,8 @@ srctie.wire(globals(), 'C06')
 PROOF_MODULES = PROOF_MODULES + [m for m in ['Compute.Lemmas.Rounding7', 'Compute.Props.Rounding7'] if m not in PROOF_MODULES]
 REQUIRED_THEOREMS = REQUIRED_THEOREMS + ['Cv.Rounding7.scoringStep_system', 'Cv.Rounding7.scoring_fixed_point', 'Cv.Rounding7.loopBody_scoringStep', 'Cv.Rounding7.computeDdbeta_fl', 'Cv.Rounding7.computeDbeta_fl', 'Cv.Rounding7.dbetaCell_pert', 'Cv.Rounding7.solve_backward_W', 'Cv.Rounding7.step_small', 'Cv.Rounding7.invLinkF_error']
 NOT_PROVED = [x for x in NOT_PROVED if not str(x).startswith('floating-point rounding of the scoring iteration')] + ["floating-point rounding of the scoring loop: one IRLS step IS analysed in the standard model (Props/Rounding7 scoringStep_system): the computed Newton step solves (X^T W X + alpha I + E) d = -X^T r + alpha P beta + e with |E| <= gamma_(n+2) |X|^T|W||X| + u(|H_aa|+alpha) on the diagonal + gamma_(3p+1) W_solve and |e| <= gamma_(n+1) |X|^T|r| + gamma_2(|g|+alpha|beta|), W, r the computed working weights/residuals (3 resp. 4 roundings), the link values within u_f (ExpLnStd) of the exact ones at the computed linear predictor; and 'converged in floats => score small' (scoring_fixed_point): if the step leaves beta unchanged then |d_b| <= gamma_1|beta_b| and the score built from the computed residuals is bounded by gamma_1 (|X^T W X + alpha I| + |E|)|beta| + |e|; the distance of that score to the score at the exact link values, and convergence of the iteration itself, are oracle only"]
+
+# --- deep theorems (Rounding8, wired by the lead)
+PROOF_MODULES = PROOF_MODULES + [m for m in ['Compute.Lemmas.Rounding8', 'Compute.Props.Rounding8'] if m not in PROOF_MODULES]
+REQUIRED_THEOREMS = REQUIRED_THEOREMS + ['Cv.Rounding8.fixed_point_exact_score', 'Cv.Rounding8.loopBody_links', 'Cv.Rounding8.linearPredictor_error', 'Cv.Rounding8.muHat_error', 'Cv.Rounding8.sigma_lipschitz', 'Cv.Rounding8.exp_lipschitz', 'Cv.Rounding8.dInvLink_eq_variance', 'Cv.Rounding8.variance_map', 'Cv.Rounding8.varF_ne_zero', "Cv.Rounding8.scoring_fixed_point'"]
+NOT_PROVED = list(NOT_PROVED) + ["for the canonical families (Gaussian, Bernoulli, Poisson, quasi-Poisson) 'converged in floats => the EXACT penalised score is small' IS proved (Props/Rounding8 fixed_point_exact_score): |S(beta)_a| <= gamma_1 (|X^T W X + alpha I| + |E|)|beta| + |e| + sum_i |X_ia||w_i| (muErr_i + gamma_4 |y_i - mu_i|), muErr = link accuracy (ExpLnStd: exact / gamma_2+gamma^f_1 / u_f) + Lipschitz constant (1, 1/4, e^eta) x gamma_(p+2)(|X||beta| + |offset|); hypotheses: non-zero LU pivots if that route is taken, no saturated logistic variance; Gamma / Exponential (log link, variance mu^2) and convergence of the iteration itself are oracle only"]
